@@ -35,6 +35,18 @@ type c16In struct {
 	Wire  string `json:"wire,omitempty"`  // the escaped attribute value as sent
 	Reply string `json:"reply,omitempty"` // name in c16Replies, or "write-fail"
 	Close bool   `json:"close,omitempty"` // server closes right after the reply (no probe)
+	// digest-seq / reconnect: the SAME Component value is used for every entry, in order
+	Sessions []c16Sess `json:"sessions,omitempty"`
+}
+
+// c16Sess is one handshake of a multi-step case.  digest-seq uses ID only.
+type c16Sess struct {
+	ID     []byte `json:"id"`
+	Hdr    string `json:"hdr,omitempty"`
+	Wire   string `json:"wire,omitempty"`
+	Reply  string `json:"reply,omitempty"`
+	End    string `json:"end,omitempty"`    // how an established session ends: drop | server-close | client-close
+	Resume bool   `json:"resume,omitempty"` // call Resume() instead of Connect()
 }
 
 type c16 struct{}
@@ -45,7 +57,7 @@ func (c16) ID() string    { return "C16" }
 func (c16) RunFn() string { return "run_C16" }
 func (c16) Workers() int  { return 64 }
 func (c16) Rule() string {
-	return "digest cases: random (id, secret) byte strings through Component.handshake (lengths 0..1100 incl. every SHA-1 padding boundary, XML-special, non-ASCII, NUL/0xff bytes); connect cases: Component.Connect against a scripted TCP server, id sent XML-escaped in the stream header (entities, numeric references, either quote, missing attribute, 1 kB), every reply kind (handshake forms, 25 stream-error conditions, 12 other packet kinds, unknown/malformed/closed), transport failures and a failing handshake write; distinct = distinct (kind, total length mod 64, block count, id class, header, pre, reply); non-trivial = digest of a non-empty input, or a connect case that reaches the reply"
+	return "digest-seq cases: Component.handshake called 2-4 times on the SAME Component value with different (and repeated, empty) ids; reconnect cases: the SAME Component connects 2-4 times in a row (Connect/Resume) to the scripted server, a fresh escaped/non-ASCII/empty/1 kB stream id per connection, sessions ended by a TCP drop, a server-side stream close or Disconnect, optionally one refused handshake in between - the digest of every connection is compared; digest cases: random (id, secret) byte strings through Component.handshake (lengths 0..1100 incl. every SHA-1 padding boundary, XML-special, non-ASCII, NUL/0xff bytes); connect cases: Component.Connect against a scripted TCP server, id sent XML-escaped in the stream header (entities, numeric references, either quote, missing attribute, 1 kB), every reply kind (handshake forms, 25 stream-error conditions, 12 other packet kinds, unknown/malformed/closed), transport failures and a failing handshake write; distinct = distinct (kind, total length mod 64, block count, id class, header, pre, reply); non-trivial = digest of a non-empty input, a connect case that reaches the reply, or a sequence of at least two handshakes"
 }
 
 // ---------------------------------------------------------------- replies
@@ -347,6 +359,74 @@ func (c16) Gen(r *rand.Rand, tier string) []interface{} {
 		}
 		conn(in)
 	}
+	// ---- the SAME Component value hashing / connecting several times
+	nds, nrc := 120, 70
+	if tier == "thorough" {
+		nds, nrc = 4000, 1000
+	}
+	demoIDs := []string{"1263952298440005243", "a&b<c>\"d'e", "поток-ストリーム-é", "3f9a1c0e-6a0b-4a57-9d0e-5b1d7f3c2a11"}
+	seq := func(secret string, ids ...string) {
+		in := c16In{Kind: "digest-seq", Secret: []byte(secret)}
+		for _, id := range ids {
+			in.Sessions = append(in.Sessions, c16Sess{ID: []byte(id)})
+		}
+		out = append(out, in)
+	}
+	seq("s3cr&t-é", demoIDs...)
+	seq("mypass", "x", "x")
+	seq("mypass", "", "")
+	seq("", "a", "b", "")
+	seq("k", strings.Repeat("i", 64), strings.Repeat("j", 55), "")
+	for i := 0; i < nds; i++ {
+		in := c16In{Kind: "digest-seq", Secret: c16GenSecret(r)}
+		for n := 2 + r.Intn(3); n > 0; n-- {
+			in.Sessions = append(in.Sessions, c16Sess{ID: c16GenID(r, false)})
+		}
+		out = append(out, in)
+	}
+	ends := []string{"drop", "server-close", "client-close"}
+	okReplies := []string{"handshake", "handshake", "handshake-long", "handshake-ns", "handshake-text", "handshake-ws", "handshake-comment"}
+	badReplies := []string{"stream-error:not-authorized", "stream-error:conflict", "other:message", "unknown-ns", "close"}
+	sess := func(id, hdr, reply, end string, resume bool) c16Sess {
+		q := '\''
+		if hdr == "dq" {
+			q = '"'
+		}
+		if hdr == "noid" {
+			id = ""
+		}
+		return c16Sess{ID: []byte(id), Hdr: hdr, Wire: c16Escape(r, id, q), Reply: reply, End: end, Resume: resume}
+	}
+	for _, e := range ends { // the seeded-change demonstration's history, once per way of ending a session
+		in := c16In{Kind: "reconnect", Secret: []byte("s3cr&t-é")}
+		for k, id := range demoIDs {
+			in.Sessions = append(in.Sessions, sess(id, "dq", "handshake", e, k > 0))
+		}
+		out = append(out, in)
+	}
+	{ // a refused handshake in the middle must not disturb the next one either
+		in := c16In{Kind: "reconnect", Secret: []byte("mypass")}
+		in.Sessions = append(in.Sessions, sess("one", "std", "handshake", "drop", false), sess("two", "std", "stream-error:not-authorized", "client-close", true),
+			sess("", "std", "handshake", "server-close", true), sess("one", "std", "handshake", "client-close", false))
+		out = append(out, in)
+	}
+	for i := 0; i < nrc; i++ {
+		in := c16In{Kind: "reconnect", Secret: c16GenSecret(r)}
+		n := 2 + r.Intn(3)
+		failAt := -1
+		if r.Intn(5) == 0 { // at most one refused handshake per case (each costs ConnectTimeout = 1 s)
+			failAt = r.Intn(n)
+		}
+		for k := 0; k < n; k++ {
+			reply := okReplies[r.Intn(len(okReplies))]
+			if k == failAt {
+				reply = badReplies[r.Intn(len(badReplies))]
+			}
+			hdr := []string{"std", "std", "dq", "idfirst", "noid", "nsid"}[r.Intn(6)]
+			in.Sessions = append(in.Sessions, sess(string(c16GenID(r, true)), hdr, reply, ends[r.Intn(3)], k > 0 && r.Intn(3) > 0))
+		}
+		out = append(out, in)
+	}
 	return out
 }
 
@@ -426,7 +506,8 @@ func c16ReadUntil(c net.Conn, acc *[]byte, from, stop string, deadline time.Time
 
 // serve plays one case on one accepted connection.  sync1/sync2 implement the
 // write-failure case (see Run).
-func c16Serve(ln net.Listener, in c16In, atProlog <-chan struct{}, released chan<- struct{}, res *c16Srv, done chan<- struct{}) {
+// end (may be nil) lets Run decide how a session that stays open is ended.
+func c16Serve(ln net.Listener, in c16In, atProlog <-chan struct{}, released chan<- struct{}, res *c16Srv, done chan<- struct{}, end <-chan string) {
 	defer close(done)
 	if tl, ok := ln.(*net.TCPListener); ok {
 		tl.SetDeadline(time.Now().Add(c16Wait))
@@ -503,6 +584,22 @@ func c16Serve(ln net.Listener, in c16In, atProlog <-chan struct{}, released chan
 	if !rp.open || in.Close {
 		return // deferred Close
 	}
+	if end != nil {
+		select {
+		case cmd := <-end:
+			switch cmd {
+			case "drop": // hang up without a word
+				return
+			case "server-close": // close the stream from the server side, then wait for the peer
+				conn.Write([]byte("</stream:stream>"))
+				c16ReadUntil(conn, &acc, "", "</stream:stream>", time.Now().Add(c16Wait))
+				return
+			}
+		case <-time.After(2 * c16Wait):
+			res.note = "server: session never ended"
+			return
+		}
+	}
 	c16AnswerClose(conn, &acc)
 }
 
@@ -524,6 +621,17 @@ func (c16) Run(inp interface{}) Sx {
 		c, _ := xmpp.NewComponent(xmpp.ComponentOptions{Domain: "comp.localhost", Secret: string(in.Secret)}, nil, nil)
 		return L(SBytes(xmpp.VerifComponentHandshake(c, string(in.ID))))
 	}
+	if in.Kind == "digest-seq" {
+		c, _ := xmpp.NewComponent(xmpp.ComponentOptions{Domain: "comp.localhost", Secret: string(in.Secret)}, nil, nil)
+		var ds []Sx
+		for _, s := range in.Sessions {
+			ds = append(ds, SBytes(xmpp.VerifComponentHandshake(c, string(s.ID))))
+		}
+		return LS(ds)
+	}
+	if in.Kind == "reconnect" {
+		return c16RunReconnect(in)
+	}
 	ln, err := net.Listen("tcp", "127.0.0.1:0")
 	if err != nil {
 		return L(SBytes("HARNESS"), SBytes(err.Error()))
@@ -541,7 +649,7 @@ func (c16) Run(inp interface{}) Sx {
 		ln.Close()
 		close(srvDone)
 	default:
-		go c16Serve(ln, in, atProlog, released, srv, srvDone)
+		go c16Serve(ln, in, atProlog, released, srv, srvDone, nil)
 	}
 	defer ln.Close()
 
@@ -604,18 +712,7 @@ func (c16) Run(inp interface{}) Sx {
 		go cleanup()
 		return c16Timeout("Connect did not return")
 	}
-	errCode := int64(0)
-	var ce xmpp.ConnError
-	switch {
-	case cerr == nil:
-	case errors.As(cerr, &ce):
-		errCode = 1
-		if ce.Permanent {
-			errCode = 2
-		}
-	default:
-		errCode = 3
-	}
+	errCode := c16ErrCode(cerr)
 	// the probe: wait long when Connect reported success, briefly otherwise (nothing is
 	// running that could deliver it; the bytes are already in the component's socket)
 	wait := 40 * time.Millisecond
@@ -637,6 +734,139 @@ func (c16) Run(inp interface{}) Sx {
 		return L(SBytes("SERVER"), SBytes(srv.note))
 	}
 	return L(Opt(srv.gotText, SBytes(srv.text)), Z(errCode), Z(int64(state)), LS(evs), B(handled))
+}
+
+// c16ErrCode: 0 nil, 1 ConnError non-permanent, 2 ConnError permanent, 3 other error
+func c16ErrCode(err error) int64 {
+	var ce xmpp.ConnError
+	switch {
+	case err == nil:
+		return 0
+	case errors.As(err, &ce):
+		if ce.Permanent {
+			return 2
+		}
+		return 1
+	}
+	return 3
+}
+
+// c16RunReconnect: ONE Component value, one listener, len(Sessions) connections in a row.
+func c16RunReconnect(in c16In) Sx {
+	ln, err := net.Listen("tcp", "127.0.0.1:0")
+	if err != nil {
+		return L(SBytes("HARNESS"), SBytes(err.Error()))
+	}
+	defer ln.Close()
+	probe := make(chan struct{}, 8)
+	gone := make(chan error, 8)
+	router := xmpp.NewRouter()
+	router.NewRoute().HandlerFunc(func(s xmpp.Sender, p stanza.Packet) {
+		select {
+		case probe <- struct{}{}:
+		default:
+		}
+	})
+	tcfg := xmpp.TransportConfiguration{Address: ln.Addr().String(), Domain: "comp.localhost", ConnectTimeout: 1}
+	c, _ := xmpp.NewComponent(xmpp.ComponentOptions{TransportConfiguration: tcfg, Domain: "comp.localhost", Secret: string(in.Secret),
+		Name: "verif", Category: "gateway", Type: "service"}, router, func(e error) {
+		select {
+		case gone <- e:
+		default:
+		}
+	})
+	disconnect := func() bool {
+		d := make(chan struct{})
+		go func() { c.Disconnect(); close(d) }()
+		select {
+		case <-d:
+			return true
+		case <-time.After(c16Wait):
+			return false
+		}
+	}
+	var out []Sx
+	for k, s := range in.Sessions {
+		for len(probe) > 0 {
+			<-probe
+		}
+		for len(gone) > 0 {
+			<-gone
+		}
+		hdr := s.Hdr
+		if hdr == "" {
+			hdr = "std"
+		}
+		sin := c16In{Kind: "connect", ID: s.ID, Secret: in.Secret, Pre: "ok", Hdr: hdr, Wire: s.Wire, Reply: s.Reply}
+		srv := &c16Srv{}
+		srvDone := make(chan struct{})
+		end := make(chan string, 1)
+		go c16Serve(ln, sin, nil, nil, srv, srvDone, end)
+		errCh := make(chan error, 1)
+		go func(resume bool) {
+			if resume {
+				errCh <- c.Resume()
+			} else {
+				errCh <- c.Connect()
+			}
+		}(s.Resume)
+		var cerr error
+		select {
+		case cerr = <-errCh:
+		case <-time.After(2 * c16Wait):
+			end <- "drop"
+			go disconnect()
+			return c16Timeout(fmt.Sprintf("connection %d: Connect/Resume did not return", k+1))
+		}
+		wait := 40 * time.Millisecond
+		if cerr == nil {
+			wait = c16Wait
+		}
+		handled := false
+		select {
+		case <-probe:
+			handled = true
+		case <-time.After(wait):
+		}
+		state := xmpp.VerifConnState(&c.EventManager)
+		// end the session
+		last := k == len(in.Sessions)-1
+		switch {
+		case cerr == nil && s.End == "drop":
+			end <- "drop"
+			select {
+			case <-gone:
+			case <-time.After(c16Wait):
+				go disconnect()
+				return c16Timeout(fmt.Sprintf("connection %d: the component never noticed that the server dropped the connection", k+1))
+			}
+			if last {
+				go disconnect() // closes the local socket; nothing answers, returns after ConnectTimeout
+			}
+		case cerr == nil && s.End == "server-close":
+			end <- "server-close"
+			// the receive loop now sits in ReceivedStreamClose until somebody calls Close
+			time.Sleep(5 * time.Millisecond)
+			if !disconnect() {
+				return c16Timeout(fmt.Sprintf("connection %d: Disconnect after the server's stream close did not return", k+1))
+			}
+		default:
+			end <- "client-close"
+			if !disconnect() {
+				return c16Timeout(fmt.Sprintf("connection %d: Disconnect did not return", k+1))
+			}
+		}
+		select {
+		case <-srvDone:
+		case <-time.After(2 * c16Wait):
+			return c16Timeout(fmt.Sprintf("connection %d: server side did not finish", k+1))
+		}
+		if srv.note != "" {
+			return L(SBytes("SERVER"), SBytes(fmt.Sprintf("connection %d: %s", k+1, srv.note)))
+		}
+		out = append(out, L(Opt(srv.gotText, SBytes(srv.text)), Z(c16ErrCode(cerr)), Z(int64(state)), B(handled)))
+	}
+	return LS(out)
 }
 
 // ---------------------------------------------------------------- model input
@@ -665,6 +895,24 @@ func (c16) Input(inp interface{}) Sx {
 	in := inp.(c16In)
 	if in.Kind == "digest" {
 		return L(Z(0), SBytes(string(in.ID)), SBytes(string(in.Secret)))
+	}
+	if in.Kind == "digest-seq" {
+		ids := make([]Sx, len(in.Sessions))
+		for i, s := range in.Sessions {
+			ids[i] = SBytes(string(s.ID))
+		}
+		return L(Z(2), LS(ids), SBytes(string(in.Secret)))
+	}
+	if in.Kind == "reconnect" {
+		ss := make([]Sx, len(in.Sessions))
+		for i, s := range in.Sessions {
+			abs := L(Z(-1))
+			if rp, ok := c16ReplyByName(s.Reply); ok {
+				abs = rp.abs
+			}
+			ss[i] = L(SBytes(string(s.ID)), abs)
+		}
+		return L(Z(3), LS(ss), SBytes(string(in.Secret)))
 	}
 	pre, w, reply := c16Abstract(in)
 	return L(Z(1), pre, SBytes(string(in.Secret)), B(w), reply)
@@ -707,6 +955,52 @@ func (c16) Oracle(inp interface{}, obs Sx) (string, string) {
 		}
 		return c16DigestOracle(string(bytesOf(obs.L[0])), in.ID, in.Secret)
 	}
+	if in.Kind == "digest-seq" || in.Kind == "reconnect" {
+		if len(obs.L) != len(in.Sessions) {
+			return "shape", "shape"
+		}
+		for k, s := range in.Sessions {
+			o := obs.L[k]
+			var got string
+			have := true
+			if in.Kind == "digest-seq" {
+				got = string(bytesOf(o))
+			} else {
+				if len(o.L) != 4 {
+					return "shape", "shape"
+				}
+				if have = len(o.L[0].L) == 1; have {
+					got = string(bytesOf(o.L[0].L[0]))
+				}
+			}
+			if !have {
+				return fmt.Sprintf("connection %d: the server received no handshake element", k+1), "no-handshake-sent"
+			}
+			if msg, sig := c16DigestOracle(got, s.ID, in.Secret); msg != "" {
+				if sig == "digest-mismatch" && k > 0 {
+					// is it the digest of everything hashed so far?
+					var all []byte
+					for _, e := range in.Sessions[:k+1] {
+						all = append(append(all, e.ID...), in.Secret...)
+					}
+					sum := sha1.Sum(all)
+					if got == hex.EncodeToString(sum[:]) {
+						return fmt.Sprintf("handshake %d of the same Component (stream id %q): digest %s is SHA-1 over the ids and secrets of ALL %d handshakes so far, not hex(SHA-1(id ++ secret)) of the current stream id", k+1, s.ID, got, k+1), "digest-depends-on-earlier-connections"
+					}
+					return fmt.Sprintf("handshake %d of the same Component: %s", k+1, msg), "digest-mismatch-on-reconnect"
+				}
+				return fmt.Sprintf("handshake %d of the same Component: %s", k+1, msg), sig
+			}
+			if in.Kind == "reconnect" {
+				rp, _ := c16ReplyByName(s.Reply)
+				expectOK := len(rp.abs.L) > 0 && rp.abs.L[0].Z == 0
+				if msg, sig := c16OutcomeOracle(expectOK, o.L[1].Z, o.L[2].Z, o.L[3].Z == 1, s.Reply+fmt.Sprintf(" (connection %d)", k+1)); msg != "" {
+					return msg, sig
+				}
+			}
+		}
+		return "", ""
+	}
 	if len(obs.L) != 5 {
 		return "shape", "shape"
 	}
@@ -726,19 +1020,24 @@ func (c16) Oracle(inp interface{}, obs Sx) (string, string) {
 			return msg, sig
 		}
 	}
+	return c16OutcomeOracle(expectOK, errCode, state, handled, in.Reply+" (pre "+in.Pre+")")
+}
+
+// the second sentence of the property, on one connection's observation
+func c16OutcomeOracle(expectOK bool, errCode, state int64, handled bool, reply string) (string, string) {
 	switch {
 	case expectOK && errCode != 0:
-		return "server answered with a handshake element but Connect returned an error", "error-despite-handshake"
+		return "server answered with a handshake element but Connect returned an error: " + reply, "error-despite-handshake"
 	case !expectOK && errCode == 0:
-		return "Connect returned nil although the reply was " + in.Reply + " (pre " + in.Pre + ")", "nil-without-handshake"
+		return "Connect returned nil although the reply was " + reply, "nil-without-handshake"
 	case expectOK && state != 2:
-		return fmt.Sprintf("handshake accepted but state is %d", state), "not-established-despite-handshake"
+		return fmt.Sprintf("handshake accepted but state is %d: %s", state, reply), "not-established-despite-handshake"
 	case !expectOK && state == 2:
-		return "state is SessionEstablished although the reply was " + in.Reply, "established-without-handshake"
+		return "state is SessionEstablished although the reply was " + reply, "established-without-handshake"
 	case !expectOK && handled:
-		return "a stanza was routed to a handler although the reply was " + in.Reply, "routed-without-handshake"
+		return "a stanza was routed to a handler although the reply was " + reply, "routed-without-handshake"
 	case expectOK && !handled:
-		return "established, but the probe stanza never reached a handler", "probe-not-routed"
+		return "established, but the probe stanza never reached a handler: " + reply, "probe-not-routed"
 	}
 	return "", ""
 }
@@ -771,6 +1070,34 @@ func (c16) Key(inp interface{}) (string, bool) {
 		hist("digest:id-" + cls)
 		hist(fmt.Sprintf("digest:blocks-%d", (total+9+63)/64))
 		return fmt.Sprintf("d/%d/%d/%s/%d", total%64, (total+9+63)/64, cls, len(in.Secret)%4), total > 0
+	}
+	if in.Kind == "digest-seq" || in.Kind == "reconnect" {
+		var b strings.Builder
+		fmt.Fprintf(&b, "%s/%d/%d", in.Kind, len(in.Sessions), len(in.Secret)%8)
+		hist(fmt.Sprintf("%s:handshakes-%d", in.Kind, len(in.Sessions)))
+		for _, s := range in.Sessions {
+			c := c16IDClass(s.ID)
+			hist(in.Kind + ":id-" + c)
+			fmt.Fprintf(&b, "/%s,%d", c, (len(s.ID)+len(in.Secret))%64)
+			if in.Kind == "reconnect" {
+				rk := s.Reply
+				if !strings.HasPrefix(rk, "handshake") {
+					hist("reconnect:session-fails-" + rk)
+				}
+				hist("reconnect:end-" + s.End)
+				hist("reconnect:hdr-" + s.Hdr)
+				if s.Resume {
+					hist("reconnect:via-Resume")
+				} else {
+					hist("reconnect:via-Connect")
+				}
+				if s.Wire != string(s.ID) {
+					hist("reconnect:id-escaped-on-wire")
+				}
+				fmt.Fprintf(&b, ",%s,%s,%s,%v", s.Hdr, rk, s.End, s.Resume)
+			}
+		}
+		return b.String(), len(in.Sessions) >= 2
 	}
 	hist("connect:pre-" + strings.SplitN(in.Pre, ":", 2)[0])
 	hist("connect:hdr-" + in.Hdr)
